@@ -7,6 +7,8 @@ import apicheck
 import gen
 import vlib
 
+P = gen.P
+
 
 def grid(tier, rng):
     ks = [1, 2, 3, 4, 5, 6, 7, 8, 9, 10, 12, 16, 20, 33, 64, 100] if tier == "quick" else \
@@ -102,6 +104,22 @@ def run(pid, tier):
         if dapi:
             apicheck.judge(pid, dapi, verdict)     # only MemFaults can come out of this layer-B run
             api["drift"] += dapi["drift"]
+        stable = None
+        if pid == "C15":
+            # 4. the answer is a property of the configured code: asked again after every submission of a decoder
+            #    session and after every built repair symbol of an encoder session it must not change (ApiTrace)
+            sx = []
+            for _ in range(150 if tier == "quick" else 3000):
+                k = rng.randint(1, 10); r = rng.randint(3, 14); n1 = rng.choice([4, 4, 6, 3, 5])
+                n1 = min(n1, r)
+                p = P(3, k, r, N1=n1, seed=rng.choice([1, 2, 3, rng.randint(1, 2 ** 31 - 2)]))
+                sub = rng.sample(range(p.n), rng.randint(1, p.n))
+                sx.append(gen.decode_exec(p, sub, api=rng.choice(["recv", "recv", "mixed"]), finish=rng.choice([True, False]), probe="each",
+                                          both=rng.random() < 0.2))
+                if rng.random() < 0.4:
+                    sx.append(gen.encode_exec(p, both=rng.random() < 0.2))
+            stable = apicheck.run_api(bdir, drv, gen.join(sx).split("\n"), spec="ApiTrace")
+            apicheck.judge(pid, stable, verdict)
         rc = verdict.finish()
         nlast = 0
         cov = {
@@ -121,6 +139,7 @@ def run(pid, tier):
             "draw_level_points": big if dapi else [], "draw_level_events_validated": dapi["lines"] if dapi else 0,
             "uneven_placements_validated": sum(int(x.split(", ")[0]) for r in api["results"] for x in r.get("pstat", [])),
             "completion_entries_validated": sum(int(x.split(", ")[1]) for r in api["results"] for x in r.get("pstat", [])),
+            "claim_asked_again_during_sessions": stable["execs"] if stable else 0,
             "exhaustive": False,
         }
         vlib.write_evidence(pid, tier, "model_checking", cov, time.time() - t0, len(verdict.violations),
